@@ -43,6 +43,9 @@ def run(repo, run, tier):
     # the event functions are evaluated on the piece the dense-output lookup selects for the step just taken: the list it bisects must stay sorted
     from .c06 import containers
     containers(repo, run, rule_id="C08.11", position_only=True)
+    # 'with a compatible direction': the direction (and terminal flag) an event requests is read from the event function at every integrate() call
+    from .common import memo_discipline
+    memo_discipline(repo, run, "C08.12", [DS], "the system module (event preparation)")
 
 
 def pruning(repo, run, m):
